@@ -75,7 +75,13 @@ def adig(x):
 def t_reader_slice(env, out, serial):
     from amr_kitchen import PlotfileCooker
     pck = PlotfileCooker(env["p3"])
-    return [pck[:][1][:], pck["density"][0][[2, 0]], pck[[0, 2]][1][[True, False, True, True]]]
+    if serial:
+        # the serial counterpart of a multi-box selection: the same boxes read one by one in the calling process
+        return [[pck[:][1][b] for b in range(4)], [pck["density"][0][b] for b in (2, 0)], [pck[[0, 2]][1][b] for b in (0, 2, 3)],
+                [pck["temp"][1][b] for b in (1, 3, 0)], [pck[0:2][1][b] for b in (2, 3)], [pck[1:3][1][b] for b in (2, 1)], [pck[1:3][1][b] for b in (1, 2)]]
+    # (an index list that is a 3-cycle; partial field slices read box by box in the calling process BEFORE the pooled read)
+    return [pck[:][1][:], pck["density"][0][[2, 0]], pck[[0, 2]][1][[True, False, True, True]], pck["temp"][1][[1, 3, 0]],
+            [pck[0:2][1][2], pck[0:2][1][3]], [pck[1:3][1][2], pck[1:3][1][1]], pck[1:3][1][1:3]]
 
 
 def t_reader_iter(env, out, serial):
@@ -185,7 +191,7 @@ def t_chk2plt(env, out, serial):
 
 
 # name -> (driver, has a serial mode)
-TOOLS = {"reader_slice": (t_reader_slice, False), "reader_iter": (t_reader_iter, False), "taste": (t_taste, False),
+TOOLS = {"reader_slice": (t_reader_slice, True), "reader_iter": (t_reader_iter, False), "taste": (t_taste, False),
          "taste_bad": (t_taste_bad, False), "colander": (t_colander, False), "colander2d": (t_colander2d, False),
          "combine_byfile": (t_combine_byfile, False), "combine_bybox": (t_combine_bybox, False), "chef": (t_chef, True),
          "chef_cantera": (t_chef_cantera, True),
